@@ -190,7 +190,7 @@ def main(run):
                                         original_sage=(mode == "explain_one_original"), verbose=False)
                 expl = data
                 upd = [ev for ev in clock.log if ev[0] == "storage.update"]
-                if len(upd) != 1 or upd[0][1] is not data[-1][0]:
+                if len(upd) != 1 or not (upd[0][1] == data[-1][0]):
                     raise Bad("explain-one-storage", "BatchSage.explain_one must store the observation once before explaining")
         except Bad as b:
             run.ok(kind=mode)
@@ -274,7 +274,7 @@ def main(run):
                 if upd:
                     stored.append((x, y))
                 ups = [ev for ev in log if ev[0] == "storage.update"]
-                if len(ups) != (1 if upd else 0) or (upd and (ups[0][1] is not x)):
+                if len(ups) != (1 if upd else 0) or (upd and not (ups[0][1] == x)):
                     raise Bad("storage-update", f"call {c}: {len(ups)} storage updates with update_storage={upd}")
                 evals = [ev for ev in log if ev[0] in ("model", "model_batch", "loss", "impute.call")]
                 should = force or (c % il == 0)
